@@ -4,9 +4,9 @@ Import ListNotations.
 Require Import Kinds Table TableFacts DenseDefs OrdDefs ConserveDefs.
 
 Definition kappa : dmap :=
-  Eval vm_compute in orounds cpat crfree ctfree table 60 [(start_state, [aframe0])].
+  Eval vm_compute in orounds cpat crfree ctfree cxr table 60 [(start_state, [aframe0])].
 
-Lemma kappa_ok : ord_ok cpat crfree ctfree table start_state kappa = true.
+Lemma kappa_ok : ord_ok cpat crfree ctfree cxr table start_state kappa = true.
 Proof. vm_compute. reflexivity. Qed.
 Lemma kappa_ends : ord_ends table kappa = true.
 Proof. vm_compute. reflexivity. Qed.
